@@ -1,0 +1,11 @@
+//go:build verif
+
+package util
+
+// Contracts for the verification machinery in /verif (comment-only; see /verif/DESIGN.md).
+
+//@ func LdRead
+//@   modifies pos(r)
+//@   alloc[0] bounded_by MaxAllowedSectionSize
+//@   ensures eof_clean [C02]: err == io.EOF ==> pos(r) == old(pos(r))
+//@   ensures monotone: pos(r) >= old(pos(r))
